@@ -9,7 +9,7 @@ from runner import Check
 
 CONST_OPS = ["copy", "substr", "left", "right", "trim", "trim_left", "trim_right", "to_upper", "to_lower", "replace", "before_first",
              "after_first", "before_last", "after_last", "concat", "concat_self", "split", "tokenize", "to_utf8", "to_utf16", "to_utf32",
-             "to_wchar", "to_latin_1", "to_std", "format", "stream", "observe"]
+             "to_wchar", "to_latin_1", "to_std", "format", "formatf", "stream", "observe"]
 CFG = """SPECIFICATION Spec
 CONSTANTS
   Slots = {%s}
@@ -122,7 +122,9 @@ class C04(StrPoolCheck):
     rule = ("operation schedules covering every edge of the TLC state graph of MC_StringPool (<= 30 steps each): 27 const-operation families "
             "(copy, slicing, trimming, case mapping, replace, before/after, concatenation, split, tokenize, conversions to every width, "
             "std::string, format, stream insertion, non-returning members) x source class x result dropped/kept, all constructor / "
-            "assignment / set / += / clear / move forms incl. self-assignment and self-append; seeded random walks of 40 steps on 3 slots")
+            "assignment / set / += / clear / move forms incl. self-assignment, self-append and arguments that point into the target's own "
+            "storage (s = s.c_str() + k, ...); buffer arguments passed by reference are observed after the call; seeded random walks of "
+            "40 steps on 3 slots")
     exhaustive_note = "every (state, operation) edge of the 3-slot pool model is executed"
 
 
@@ -134,7 +136,8 @@ class C18(StrPoolCheck):
                   "+= and from_* form, and TLC decides the recorded pre/post projections; malformed wide text inserted into string_stream "
                   "is decided by the stream trace specification")
     rule = ("the schedules of C04 (which contain the throwing variants: constructor, set:cstr/buflv/bufrv/std/wide, += with malformed data "
-            "of every size class in every target class) plus the string_stream random walks with malformed wide text; state after the "
+            "of every size class in every target class, to_buffer() into a caller's buffer, operator>> into a non-empty string) plus the "
+            "string_stream random walks with malformed wide text (short, long, and behind a clean ASCII head); state after the "
             "caught exception must equal the state before, the rvalue argument must still hold its value, the heap must balance")
 
     def jobs(self, tier, seed):
